@@ -28,6 +28,11 @@ class SimSocket:
         self.send_calls = 0
         self.close_calls = 0
         self.consumed = 0        # bytes handed to the client
+        self.clock = 0           # virtual milliseconds
+        self.calls = 0           # transport calls of any kind (recv, send, close, shutdown)
+
+    def timeout_ms(self):
+        return None if self.timeout is None else int(round(self.timeout * 1000))
 
     # --- socket API used by websocket-client
     def gettimeout(self):
@@ -47,14 +52,36 @@ class SimSocket:
         return 0
 
     def recv(self, n):
-        self.recv_sizes.append(n)
         if self.closed:
+            self.calls += 1
+            self.recv_sizes.append(n)
             self.log.append(("recv", n, "EBADF"))
             raise OSError(9, "Bad file descriptor")
-        while self.events and self.events[0][0] == "chunk" and not self.events[0][1]:
-            self.events.pop(0)
+        while self.events:
+            ev = self.events[0]
+            if ev[0] == "chunk" and not ev[1]:
+                self.events.pop(0)
+            elif ev[0] == "wait":
+                t = self.timeout_ms()
+                if t is not None and ev[1] >= t:
+                    if ev[1] - t == 0:
+                        self.events.pop(0)
+                    else:
+                        self.events[0] = ("wait", ev[1] - t)
+                    self.calls += 1
+                    self.recv_sizes.append(n)
+                    self.clock += t
+                    self.log.append(("recv", n, "timeout"))
+                    raise socket.timeout("timed out")
+                self.clock += ev[1]
+                self.events.pop(0)
+            else:
+                break
+        self.calls += 1
+        self.recv_sizes.append(n)
         if not self.events:
             if self.tail == "timeout":
+                self.clock += self.timeout_ms() or 0
                 self.log.append(("recv", n, "timeout"))
                 raise socket.timeout("timed out")
             self.log.append(("recv", n, b""))
@@ -72,6 +99,7 @@ class SimSocket:
             return bytes(data)
         self.events.pop(0)
         if ev[0] == "timeout":
+            self.clock += self.timeout_ms() or 0
             self.log.append(("recv", n, "timeout"))
             raise socket.timeout("timed out")
         if ev[0] == "eof":
@@ -89,6 +117,7 @@ class SimSocket:
     def send(self, data):
         i = self.send_calls
         self.send_calls += 1
+        self.calls += 1
         if self.closed:
             self.log.append(("send", bytes(data), "EBADF"))
             raise OSError(9, "Bad file descriptor")
@@ -108,10 +137,12 @@ class SimSocket:
         self.send(data)
 
     def shutdown(self, how):
+        self.calls += 1
         self.shutdown_called = True
         self.log.append(("shutdown", how))
 
     def close(self):
+        self.calls += 1
         self.close_calls += 1
         self.closed = True
         self.log.append(("close",))
